@@ -209,7 +209,13 @@ def force_rmtree(p):
         except OSError:
             pass
     if os.path.isdir(p) and not os.path.islink(p):
-        shutil.rmtree(p, onerror=onerr)
+        try:
+            shutil.rmtree(p, onerror=onerr)
+        except (OSError, RecursionError):
+            pass
+        if os.path.lexists(p):
+            # trees deeper than PATH_MAX / the interpreter's recursion limit: rm walks them descriptor by descriptor
+            subprocess.run(["rm", "-rf", "--", p], capture_output=True)
     else:
         os.unlink(p)
 
